@@ -233,21 +233,25 @@ func (i *input) lex() {
 					if i.eof() {
 						return
 					}
-					c := i.readRune()
-					comment.WriteRune(c)
+					// Look for the delimiters before consuming a rune, so
+					// that an end (or nested start) directly after the start
+					// of the comment is recognised.
 					if i.lang.NestedComments() && i.match(start) {
 						// Allows nested comments.
 						comment.WriteString(start)
 						nesting++
+						continue
 					}
 					if i.match(end) {
 						if nesting > 0 {
 							comment.WriteString(end)
 							nesting--
-						} else {
-							break
+							continue
 						}
+						break
 					}
+					c := i.readRune()
+					comment.WriteRune(c)
 				}
 				i.comments = append(i.comments, &Comment{
 					StartLine: startLine,
